@@ -250,6 +250,38 @@ def r5_check_values(ctx, prog):
                             file=f['file'], line=c['l'])
 
 
+def r2b_template_scan(ctx, prog):
+    """The unwrap-template check compares *every* entry of the caller's template that has a restricted type (saveTemplate applies entries in order, the last one wins):
+    the scan over the caller's entries may leave the loop only by rejecting."""
+    r = ctx.rule('C13.R2b', 'the CKA_UNWRAP_TEMPLATE check scans the whole caller template: the scan is left early only by rejecting the template', floor=1, engine='E2')
+    f = prog.fn('SoftHSM::C_UnwrapKey')
+    ctx.analysed(f)
+    outer = [n for n in walk(f['body']) if n.get('k') == 'If' and 'CKA_UNWRAP_TEMPLATE' in canon(n['c'])]
+    if not outer:
+        r.undecided(f['qname'], 'scan of the caller template', 'the CKA_UNWRAP_TEMPLATE block was not found', file=f['file'], line=f['line'])
+        return
+    loops = [n for n in walk(outer[0]['t']) if n.get('k') == 'For']
+    inner = [n for n in loops if any(x.get('k') == 'Bin' and x.get('op') == '==' and 'type' in canon(x) and 'first' in canon(x) for x in walk(n['body'])) and not any(m is not n and m.get('k') == 'For' for m in walk(n['body']))]
+    if len(inner) != 1:
+        r.undecided(f['qname'], 'scan of the caller template', '%d candidate scan loops' % len(inner), file=f['file'], line=outer[0]['l'])
+        return
+    lp = inner[0]
+    bad = None
+    for x in walk(lp['body']):
+        if x.get('k') == 'Break':
+            bad = (x, 'break')
+        elif x.get('k') == 'Return' and canon(x.get('e')) not in ('CKR_TEMPLATE_INCONSISTENT',):
+            bad = (x, 'return %s' % canon(x.get('e')))
+    compares = any(x.get('k') == 'Call' and short(x.get('callee')) in ('memcmp', 'operator!=', 'operator==') for x in walk(lp['body']))
+    if bad:
+        r.violation(f['qname'], 'scan of the caller template', 'the scan over the caller\'s entries is left by `%s` (line %s): a later entry of the same attribute type — which is the one saveTemplate finally applies — is never compared with the unwrap template' % (bad[1], bad[0]['l']),
+                    file=f['file'], line=bad[0]['l'])
+    elif not compares:
+        r.violation(f['qname'], 'scan of the caller template', 'the scan no longer compares values', file=f['file'], line=lp['l'])
+    else:
+        r.ok(f['qname'], 'scan of the caller template', 'full scan; only rejecting exits', file=f['file'], line=lp['l'])
+
+
 BLOCK = {'CKM_AES_CBC': 16, 'CKM_AES_CBC_PAD': 16, 'CKM_DES3_CBC': 8, 'CKM_DES3_CBC_PAD': 8}
 
 
@@ -402,6 +434,7 @@ def run(ctx):
     pb = ctx.prog('botan-file')
     r1_reject_before_create(ctx, po)
     r2_templates(ctx, po)
+    r2b_template_scan(ctx, po)
     r3_cipher_tables(ctx, po, pb)
     r4_truncation(ctx, po)
     r5_check_values(ctx, po)
@@ -411,6 +444,9 @@ def run(ctx):
 
 
 MUTANTS = [
+    dict(name='unwrap-template-scan-stops-at-first-entry', rule='C13.R2b', file='src/lib/SoftHSM.cpp', after='// Apply the unwrap template',
+         old='\t\t\t\t\t\tif (memcmp(attr->pValue, value.const_byte_str(), value.size()) != 0)\n\t\t\t\t\t\t{\n\t\t\t\t\t\t\treturn CKR_TEMPLATE_INCONSISTENT;\n\t\t\t\t\t\t}\n',
+         new='\t\t\t\t\t\tif (memcmp(attr->pValue, value.const_byte_str(), value.size()) != 0)\n\t\t\t\t\t\t{\n\t\t\t\t\t\t\treturn CKR_TEMPLATE_INCONSISTENT;\n\t\t\t\t\t\t}\n\t\t\t\t\t\tbreak;\n'),
     dict(name='unpad-skips-first-padding-byte', rule='C13.R8', file='src/lib/SoftHSM.cpp', after='bool SoftHSM::RFC5652Unpad(',
          old='\tfor(auto i = wrappedlen-padbyte; i<wrappedlen; i++)', new='\tfor(auto i = wrappedlen-padbyte+1; i<wrappedlen; i++)'),
     dict(name='wrap-aes-cbc-blocksize-zero', rule='C13.R6', file='src/lib/SoftHSM.cpp', after='CK_RV SoftHSM::WrapKeySym',
